@@ -29,7 +29,7 @@ type c18Resp struct {
 	status      string
 	upgrade     string // "" = header absent
 	connection  string
-	accept      string // "ok", "wrong", "missing", "other-key"
+	accept      string // "ok", "wrong", "missing", "other-key", "case-swapped", "lower", "upper"
 	order       []int
 	nameCase    int // 0 canonical, 1 lower, 2 upper
 	sep         int // 0 ": ", 1 ":", 2 ":   ", 3 ": value  "
@@ -63,6 +63,30 @@ func c18Build(key string, rs *c18Resp) []byte {
 		hdrs = append(hdrs, [2]string{"Sec-WebSocket-Accept", c18Accept(key)})
 	case "wrong":
 		hdrs = append(hdrs, [2]string{"Sec-WebSocket-Accept", c18Accept(key + "x")})
+	case "case-swapped", "lower", "upper":
+		// the right value with its letter case changed: base64 is case sensitive, so this is a wrong value
+		v := c18Accept(key)
+		var w string
+		switch rs.accept {
+		case "lower":
+			w = strings.ToLower(v)
+		case "upper":
+			w = strings.ToUpper(v)
+		default:
+			w = strings.Map(func(ch rune) rune {
+				switch {
+				case ch >= 'a' && ch <= 'z':
+					return ch - 32
+				case ch >= 'A' && ch <= 'Z':
+					return ch + 32
+				}
+				return ch
+			}, v)
+		}
+		if w == v {
+			w = c18Accept(key + "x")
+		}
+		hdrs = append(hdrs, [2]string{"Sec-WebSocket-Accept", w})
 	case "other-key":
 		hdrs = append(hdrs, [2]string{"Sec-WebSocket-Accept", c18Accept("dGhlIHNhbXBsZSBub25jZQ==")})
 	}
@@ -252,6 +276,9 @@ func c18Script(r *vf.Rand) *c18Resp {
 	case 8:
 		rs.connection = ""
 		desc = "conforming-without-connection-header"
+	case 9:
+		rs.accept = []string{"case-swapped", "lower", "upper"}[r.Intn(3)]
+		desc = "accept-with-letter-case-changed"
 	}
 	rs.expectOK = strings.HasPrefix(rs.status, "HTTP/1.1 101") && strings.EqualFold(rs.upgrade, "websocket") && rs.accept == "ok"
 	if rs.expectOK {
@@ -538,7 +565,7 @@ func init() {
 	register(&vf.Check{
 		ID:        "C18",
 		Technique: "runtime monitor with the harness as a raw TCP server: request validation, acceptance predicate computed independently (own SHA-1/base64 path), scripted responses (status, header set/order/case/whitespace, wrong accept, truncation, segmentation) and piggy-backed wsref frames compared with what the client reads; bounded-progress probes for lost bytes",
-		Rule: "cases = 1-4 consecutive handshakes on one Stream (blocking and asynchronous), each against a scripted response: status {101, 101 with other text, 200, 400}, Upgrade {websocket in 3 spellings, other, absent}, Connection present/absent, Accept {correct, wrong, of another key, missing}, 0-3 extra headers, header order permuted, header-name case {canonical, lower, upper}, separator {': ', ':', ':   ', trailing blanks}, response+frames sent whole / cut at 1-2 random offsets / cut exactly at the blank line / cut inside the CRLF CRLF, server closing after k bytes, 0-3 frames piggy-backed and 0-2 sent later; after an accepted handshake optionally a small AsyncWrite that must complete, and one session in three is torn down with an asynchronous write still in flight; " +
+		Rule: "cases = 1-4 consecutive handshakes on one Stream (blocking and asynchronous), each against a scripted response: status {101, 101 with other text, 200, 400}, Upgrade {websocket in 3 spellings, other, absent}, Connection present/absent, Accept {correct, wrong, of another key, missing, correct with its letter case changed}, 0-3 extra headers, header order permuted, header-name case {canonical, lower, upper}, separator {': ', ':', ':   ', trailing blanks}, response+frames sent whole / cut at 1-2 random offsets / cut exactly at the blank line / cut inside the CRLF CRLF, server closing after k bytes, 0-3 frames piggy-backed and 0-2 sent later; after an accepted handshake optionally a small AsyncWrite that must complete, and one session in three is torn down with an asynchronous write still in flight; " +
 			"every case is non-trivial; distinct = sequence of (response class, segmentation, API)",
 		Assumptions: []string{
 			"acceptance = status 101 AND Upgrade: websocket (case-insensitive) AND Sec-WebSocket-Accept = base64(sha1(key+GUID)), exactly as the statement lists; the Connection response header is not part of it",
